@@ -325,6 +325,12 @@ func (w *Workceptor) AllocateRemoteUnit(remoteNode, remoteWorkType, tlsClient, t
 }
 
 func (w *Workceptor) scanForUnit(unitID string) {
+	// a unit ID names a directory directly under the data directory, nothing else
+	if unitID == "" || unitID == "." || unitID == ".." || strings.ContainsAny(unitID, "/\\") {
+		w.nc.GetLogger().Error("Error locating unit: %s", unitID)
+
+		return
+	}
 	unitdir := path.Join(w.dataDir, unitID)
 	fi, _ := os.Stat(unitdir)
 	if fi == nil || !fi.IsDir() {
